@@ -200,11 +200,68 @@ def running_loop_level(ctx, corr):
                              {k: o.get(k) for k in ('pfs', 'kind', 'T', 'ending')}, '; '.join(why))
 
 
+LATE_DIRECTIVE_TEXTS = [
+    ">>> print(t(0))\n0\n>>>   # xdoctest: +SKIP(\n>>> print(t(1))\n",
+    ">>>   # xdoctest: +SKIP(\n>>> print(t(0))\n",
+    ">>> x = t(0)\n>>> \n... y = 1 # xdoc: +SKIP)\n",
+    ">>> print(t(0))\n0\n>>>   # XDOCTEST: +REQUIRES(module:os\n>>> print(t(1))\n1\n",
+]
+
+
+def late_directive_level(ctx, corr):
+    """a malformed directive that the parser never looks at (it sits on a source line that no PS1 statement of
+    its chunk covers) is only found when the part's directives are read at run time: `malformed directive`
+    is one of the faults of the property, so return mode must still return a failed summary (repaired by
+    e87df5a; the docstring being COLLECTED without a warning is finding K-C14-b of C14)"""
+    import warnings as _w
+    from xdoctest import core
+    from ..gen import doctests as gd
+    for text in LATE_DIRECTIVE_TEXTS:
+        for oe in ('return', 'raise'):
+            corr.count('late-directive')
+            inp = {'text': text, 'run': {'on_error': oe}, 'late_directive': True}
+            with _w.catch_warnings():
+                _w.simplefilter('ignore')
+                exs = list(core.parse_docstr_examples(text, callname='t', style='freeform', fpath='<verif>', lineno=1))
+            if not exs:
+                corr.tag('late-directive:not-collected')
+                continue          # rejected at parse time: contained, nothing to run
+            ex = exs[0]
+            ex.mode = 'native'
+            ns, T = gd.make_namespace({})
+            ex.global_namespace = ns
+            why = []
+            try:
+                summary = ex.run(on_error=oe, verbose=0)
+                ended = 'returned'
+            except Exception as e:
+                summary, ended = None, 'raised %s' % type(e).__name__
+            corr.nontriv(('late', text, oe))
+            corr.tag('late-directive:' + ended.split()[0])
+            if oe == 'return':
+                if summary is None:
+                    why.append('run(on_error="return") %s' % ended)
+                elif not summary['failed']:
+                    why.append('summary not marked failed: %r' % ({k: summary[k] for k in ('passed', 'failed', 'skipped')},))
+            elif summary is not None and not summary['failed']:
+                why.append('run(on_error="raise") returned a summary that is not failed')
+            if not why and ex.exc_info is not None:
+                try:
+                    txt = '\n'.join(ex.repr_failure())
+                    if 'xdoc' not in txt.lower():
+                        why.append('failure report does not show the failing directive line')
+                except Exception as e2:
+                    why.append('repr_failure() raised %r' % (e2,))
+            if why:
+                corr.expect_fail('late-directive', inp, 'failed summary returned and rendered', ended, '; '.join(why))
+
+
 def correspondence(ctx, corr):
     common.run_family(ctx, corr, 'c09_matrix', {'verbose': [0] if ctx.quick else [0, 1, 2, 3]})
     common.run_family(ctx, corr, 'c09_helper_sweep', {'verbose': [0] if ctx.quick else [0, 2], 'max_extra': 6 if ctx.quick else 12})
     corr.exhaustive = True
     running_loop_level(ctx, corr)
+    late_directive_level(ctx, corr)
     runner_level(ctx, corr)
 
 
@@ -233,6 +290,14 @@ def replay_finding(ctx, finding):
 
 
 def replay(ctx, failing):
+    if failing.get('input', {}).get('late_directive'):
+        from ..core import Corr
+        c2 = Corr()
+        late_directive_level(ctx, c2)
+        bad = [e for e in c2.expect_failures if e['input']['text'] == failing['input']['text'] and e['input']['run'] == failing['input']['run']]
+        print(failing['input']['text'])
+        print('now: %s' % (bad[0]['why'] if bad else 'a failed summary is returned and rendered'))
+        return bool(bad)
     if failing.get('input', {}).get('inside_running_loop'):
         import asyncio
         from ..corr import runloop
